@@ -265,15 +265,18 @@ def concrete_cases():
         ("tensor_method: wrong format", lambda: f(A=A, x=xs)),
         ("tensor_method: wrong order", lambda: f(A=x, x=x)),
         ("tensor_method: wrong size", lambda: f(A=A, x=x3)),
-        ("evaluate: non-Tensor argument", lambda: evaluate("y(i) = A(i,j) * x(j)", "d", A=A, x=5)),
-        ("evaluate: list argument", lambda: evaluate("y(i) = A(i,j) * x(j)", "d", A=A, x=[1.0, 2.0])),
-        ("evaluate: missing argument", lambda: evaluate("y(i) = A(i,j) * x(j)", "d", A=A)),
-        ("evaluate: extra argument", lambda: evaluate("y(i) = A(i,j) * x(j)", "d", A=A, x=x, z=x)),
-        ("evaluate: wrong order", lambda: evaluate("y(i) = A(i,j) * x(j)", "d", A=x, x=x)),
-        ("evaluate: wrong size", lambda: evaluate("y(i) = A(i,j) * x(j)", "d", A=A, x=x3)),
-        ("evaluate_cffi: non-Tensor argument", lambda: evaluate_cffi("y(i) = A(i,j) * x(j)", "d", A=A, x=5)),
-        ("evaluate_cffi: wrong size", lambda: evaluate_cffi("y(i) = A(i,j) * x(j)", "d", A=A, x=x3)),
     ]
+    # every public wrapper x every way of making one argument inconsistent
+    from tensora.compile import evaluate_tensora
+
+    asg = "y(i) = A(i,j) * x(j)"
+    for wname, w in (("evaluate", evaluate), ("evaluate_cffi", evaluate_cffi), ("evaluate_tensora", evaluate_tensora)):
+        for fault, kwargs in (("number argument", dict(A=A, x=5)), ("list argument", dict(A=A, x=[1.0, 2.0])),
+                              ("missing argument", dict(A=A)), ("extra argument", dict(A=A, x=x, z=x)),
+                              ("misnamed argument", dict(A=A, w=x)), ("wrong order", dict(A=x, x=x)),
+                              ("wrong order (higher)", dict(A=A, x=A)), ("wrong size", dict(A=A, x=x3)),
+                              ("None argument", dict(A=A, x=None))):
+            cases.append((f"{wname}: {fault}", (lambda w=w, kwargs=kwargs: w(asg, "d", **kwargs))))
     from tensora.problem import IncorrectDimensionsError, UndefinedReferenceError, UnusedFormatError
 
     allowed = (TypeError, ValueError, IncorrectDimensionsError, UndefinedReferenceError, UnusedFormatError)
